@@ -221,3 +221,9 @@ chk("C19", TV,
     "positions are parsed from the assembled frame's datagram table and the FMMU logical addresses; frame condition with a "
     "symbolic byte index",
     BASE_NOTE, "symbolic execution of the emitted eBPF bytes (z3 bit-vectors) and of the Python source against a common reference", "A:8/C19")
+
+chk("C29", MC,
+    "seeded random device classes (inheritance, DeviceVars of all integer formats, x and multi-element formats) in a real "
+    "ProcessSyncGroup whose shared Arrays are symbolic byte arrays; the child is a deep copy sharing only the Arrays; symbolic "
+    "values written through the real descriptors on one side are read on the other; every other variable keeps its value",
+    PY_NOTE, "symbolic execution of the Python source (own z3-backed engine), values symbolic over each format's range", "B:8/C29")
